@@ -139,7 +139,7 @@ func init() {
 					i.modelHits++
 				}
 			}
-			if !feasible && i.checkSide(i.solverFor(c), c, true) == "unsat" {
+			if !feasible && i.checkSide(c) == "unsat" {
 				i.abort(abortPruned, "assumption infeasible")
 			}
 			i.assume(c)
@@ -152,7 +152,7 @@ func init() {
 		},
 		"verifReach": func(fr *frame, a []value) value {
 			if fr.i.pcHasF && fr.i.reached[nameArg(a[0])] == 0 {
-				if fr.i.fp().Check() != "sat" {
+				if r, _ := fr.i.fullModel(nil); r != "sat" {
 					return nil
 				}
 			}
